@@ -69,6 +69,12 @@ def run(ck, tier, seed):
                     srcs.append({"font": lf, "text": t[:rng.choice([8, 20, 40])], "dir": d, "ppm": ppm})
                 # ... and with an application-hinted font (advances asked from the client, also for the marker glyphs)
                 srcs.append({"font": lf, "text": t[:rng.choice([8, 20])], "dir": d, "ppm": 13, "hinted": 1})
+    # the shortest segments there are
+    for font in ("Padauk.ttf", "charis_r_gr.ttf", "Scheherazadegr.ttf"):
+        for t in ("a", "\u1000", "\u0628", "ab", "\u1000\u1031"):
+            for d in (0, 1, 3):
+                for ppm in (0, 12):
+                    srcs.append({"font": os.path.join(corpus.F, font), "text": t, "dir": d, "ppm": ppm})
     # a font whose first pass is a positioning pass and whose bidi step comes first (no justification passes to run)
     pf = corpus.posonly_font(tmp)
     for t in ("abcab", "ab ba cab", "bbaab(c)"):
